@@ -71,7 +71,7 @@ def run(ctx):
 
 def tag_bitmap(ctx, s, fn):
     an = ctx.E.an(fn)
-    k = [i for i, l in enumerate(fn.locals) if l.get("n") == "found_tags"]
+    k = [i for i, l in enumerate(fn.locals) if l.get("n") == "found_tags" and "inl" not in l]
     from ..main import AnalysisError
     if len(k) != 1:
         raise AnalysisError("found_tags not found")
@@ -159,8 +159,10 @@ def emission_order(ctx, s, fn):
     # the member loop: the smallest loop holding (nearly) all the member dispatch sites
     disp = [b for b, info in an.calls() if s.nice(info["callee"] or "") == parsers.JP + "eat_colon_with_whitespace"]
     main_loop = None
+    _k, _init, _sets, _other = parsers.flag_sets(ctx, s, fn, "found")
+    marks = [b for b, i, cs, facts in _sets] or disp
     for H, body in loops.items():
-        if disp and sum(1 for d in disp if d in body) >= 6:
+        if marks and all(d in body for d in marks):
             if main_loop is None or len(body) < len(loops[main_loop]):
                 main_loop = H
     inloop = loops[main_loop] if main_loop is not None else set()
